@@ -859,6 +859,12 @@ func (c *Compiler) compileVariable(expr *ast.VariableExpr) error {
 
 // compileBinaryOp compiles binary operation
 func (c *Compiler) compileBinaryOp(expr *ast.BinaryOpExpr) error {
+	// && and || evaluate their right operand only when the left one does not
+	// decide the result, exactly as the interpreter does
+	if expr.Op == ast.And || expr.Op == ast.Or {
+		return c.compileShortCircuit(expr)
+	}
+
 	// Compile left operand
 	if err := c.compileExpression(expr.Left); err != nil {
 		return err
@@ -901,6 +907,49 @@ func (c *Compiler) compileBinaryOp(expr *ast.BinaryOpExpr) error {
 		return fmt.Errorf("unsupported binary operator: %v", expr.Op)
 	}
 
+	return nil
+}
+
+// compileShortCircuit compiles `a && b` / `a || b` with existing opcodes:
+//
+//	a; JumpIfFalse F; b; Push true;  And; Jump E; F: Push false; E:
+//	a; JumpIfTrue  T; b; Push false; Or;  Jump E; T: Push true;  E:
+//
+// The conditional jump type-checks a, and `b && true` / `b || false`
+// type-checks b while leaving its value unchanged.
+func (c *Compiler) compileShortCircuit(expr *ast.BinaryOpExpr) error {
+	isAnd := expr.Op == ast.And
+
+	if err := c.compileExpression(expr.Left); err != nil {
+		return err
+	}
+
+	jumpDecided := len(c.code)
+	if isAnd {
+		c.emitWithOperand(vm.OpJumpIfFalse, 0) // Placeholder
+	} else {
+		c.emitWithOperand(vm.OpJumpIfTrue, 0) // Placeholder
+	}
+
+	if err := c.compileExpression(expr.Right); err != nil {
+		return err
+	}
+	neutralIdx := c.addConstant(vm.BoolValue{Val: isAnd})
+	c.emitWithOperand(vm.OpPush, uint32(neutralIdx))
+	if isAnd {
+		c.emit(vm.OpAnd)
+	} else {
+		c.emit(vm.OpOr)
+	}
+
+	jumpToEnd := len(c.code)
+	c.emitWithOperand(vm.OpJump, 0) // Placeholder
+
+	c.patchJump(jumpDecided, uint32(len(c.code)))
+	decidedIdx := c.addConstant(vm.BoolValue{Val: !isAnd})
+	c.emitWithOperand(vm.OpPush, uint32(decidedIdx))
+
+	c.patchJump(jumpToEnd, uint32(len(c.code)))
 	return nil
 }
 
